@@ -155,6 +155,13 @@ Theorem integrity_legacy_authcrypt_partial : forall adv hs party E m s k,
 Proof. intros adv hs party E m s k. exact (legacy_auth_lemma adv hs party E m s k). Qed.
 Print Assumptions integrity_legacy_authcrypt_partial.
 
+(* the mutation grammar of the harness (any protected header, aad, iv, ciphertext, tag; any recipients array made of
+   entries whose encrypted key comes from an honest envelope or is junk, with arbitrary headers, in any order and
+   number; re-encryption under any key) never leaves the hypothesis of the theorems above *)
+Theorem mutations_covered : forall adv hs E, mut_jwe hs E -> wf_jwe adv hs E.
+Proof. intros adv hs E. exact (mutations_covered_lemma adv hs E). Qed.
+Print Assumptions mutations_covered.
+
 (* HISTORICAL REFUTATION (before fix: 234874c).  The code as found unwrapped ECDH-ES keys although a sender key
    id was present: an outsider holding only the ephemeral key 200000 makes an envelope that the victim [2]
    unpacks as coming from the honest key 1.  The repaired decrypter rejects it. *)
